@@ -222,6 +222,12 @@ func libraryDecompress(c *mon.C, comp []byte, plan xport.Plan, byteReader bool, 
 			}
 			reuse[0].r = wsflate.NewReader(src, ctor)
 		} else {
+			if (len(comp)+buf)%3 == 0 && len(comp) > 2 {
+				// an episode in the life of a connection-long reader: the message before this one was cut by a
+				// transport error (a timeout, a reset) in the middle; the reader moves on to the next message
+				reuse[0].r.Reset(xport.NewCutter(comp, plan, len(comp)/2, xport.FaultKinds[(len(comp)+buf)%len(xport.FaultKinds)].Err))
+				io.Copy(io.Discard, reuse[0].r)
+			}
 			reuse[0].r.Reset(src)
 		}
 		r = reuse[0].r
